@@ -107,10 +107,17 @@ func (c *c11Writer) Write(p []byte) (int, error) {
 // the context's error; no goroutine is left.
 func VerifC11Cancel() {
 	n := verifN()
-	var rows []string
+	var rows, roots []string
 	for i := 0; i < n; i++ {
-		rows = append(rows, verifRow("- ", 0, 0, verifName("name")))
+		nm := verifName("name")
+		roots = append(roots, nm)
+		rows = append(rows, verifRow("- ", 0, 0, nm))
 		rows = append(rows, verifRow("  - ", 0, 1, verifName("child")))
+	}
+	for i := 0; i < n; i++ {
+		for j := 0; j < i; j++ {
+			verifAssume(roots[i] != roots[j]) // distinct roots (mkdir would otherwise meet its own directory)
+		}
 	}
 	k := verifChoose("cancelAt", 0, 40)
 	if k == 40 {
@@ -118,7 +125,9 @@ func VerifC11Cancel() {
 	} else if k > 20 {
 		k = 20 + (k-20)*8 // sparser sampling of late instants
 	}
-	op := verifChoose("op", 0, 2)
+	op := verifChoose("op", 0, 4)
+	vfsReset()
+	vfsSeal()
 	ctx := verifCtx(k)
 	w := newVerifWriter()
 	var err error
@@ -130,13 +139,22 @@ func VerifC11Cancel() {
 		err = WalkFromMarkdown(&verifReader{lines: rows}, func(*WalkerNode) error { return nil }, WithMassive(ctx))
 	case 2:
 		err = OutputFromMarkdown(w, &verifReader{lines: rows}, WithMassive(ctx), WithEncodeJSON())
+	case 3: // mkdir into the (empty) file-system model: the mkdir stage's workers
+		err = MkdirFromMarkdown(&verifReader{lines: rows}, WithMassive(ctx), WithTargetDir(vfsTarget()))
+	case 4: // verify against the empty model: every root is missing, so a finished run reports that
+		err = VerifyFromMarkdown(&verifReader{lines: rows}, WithMassive(ctx), WithTargetDir(vfsTarget()))
 	}
 	verifReach("C11.cancel.returns")
-	verifAssert(err == nil || errors.Is(err, context.Canceled), "C11.ctxerr.only")
+	if op == 4 {
+		_, isVerify := err.(verifyError)
+		verifAssert(isVerify || errors.Is(err, context.Canceled), "C11.ctxerr.only")
+	} else {
+		verifAssert(err == nil || errors.Is(err, context.Canceled), "C11.ctxerr.only")
+	}
 	if k == 0 {
 		verifAssert(errors.Is(err, context.Canceled), "C11.ctxerr/precancelled")
 	}
-	if k >= 100000 {
+	if k >= 100000 && op != 4 {
 		verifAssert(err == nil, "C11.cancel.never")
 	}
 	verifAssert(verifQuiesce() == 0, "C11.noleak/cancel")
